@@ -84,6 +84,9 @@ def config_module(mem, data, table, elems, start, two_instances=False):
             m.datas.append(('active', 0, i32_const(20), segbytes(18, 0xa0)))
             m.datas.append(('active', 0, i32_const(60), segbytes(0, 0)))
             m.datas.append(('active', 0, i32_const(30), segbytes(1, 0xff)))
+            # zero bytes at both ends and a segment of zeros only, written OVER non-zero bytes of earlier segments ("copied in segment order" includes zeros)
+            m.datas.append(('active', 0, i32_const(10), b'\x00\x00\x5a\x00\x00'))
+            m.datas.append(('active', 0, i32_const(24), b'\x00\x00\x00'))
         elif data == 'passive+active':
             m.datas.append(('passive', 0, b'', segbytes(17, 0x10)))
             m.datas.append(('active2', 0, i32_const(40), segbytes(17, 0xf0)))
@@ -122,6 +125,8 @@ def config_module(mem, data, table, elems, start, two_instances=False):
         cases.append(Case(nm, ps, rs, len(inputsets) - 1, -1, 'export ' + nm))
     if two_instances:
         ops = [(-1, (), 2)]
+        if two_instances == 'newchild':
+            ops.append((-1, (), 3))
         for inst in (0, 1):
             for nm in ('gget9', 'gget1', 'ld', 'probe', 'st', 'grow'):
                 if nm in obs:
@@ -132,7 +137,7 @@ def config_module(mem, data, table, elems, start, two_instances=False):
                 if k in setters:
                     ops.append((setters[k][1], (0x100 + inst + k,), inst))
         b.main = 'seq2'; b.ops = ops
-        b.opnames = ['Instantiate B' if ci < 0 else '%s:%s(%s)' % ('AB'[inst], cases[ci].desc, ','.join('%#x' % a for a in args)) for ci, args, inst in ops]
+        b.opnames = [('Instantiate B' if inst == 2 else 'B = NewChild(A)') if ci < 0 else '%s:%s(%s)' % ('AB'[inst], cases[ci].desc, ','.join('%#x' % a for a in args)) for ci, args, inst in ops]
     return b
 
 
@@ -177,6 +182,13 @@ def main(tier):
         b = config_module(mem, data, table, elems, start, two_instances=True)
         b.seq_len = seqlen
         jobs.append(('two-instances', b, {'cc': 'gcc', 'cflags': ('-O1', '-fsanitize=address') if tier == 'quick' else ('-O1',), 'drv_args': (seqlen, 1500), 'timeout': 1600}))
+
+    # a child made by <module>NewChild of a module without start, tables and shared memory is a fresh instance of its own
+    for mem, data in (('defined', 'overlap'), ('defined', 'passive+active'), ('imported', 'one')):
+        b = config_module(mem, data, 'none', 0, 'none', two_instances='newchild')
+        b.seq_len = seqlen
+        b.desc += ' (+NewChild)'
+        jobs.append(('two-instances', b, {'cc': 'gcc', 'cflags': ('-O1', '-fsanitize=address') if tier == 'quick' else ('-O1',), 'drv_args': (seqlen, 1500), 'timeout': 1600, 'defines': ('-DLS_NEWCHILD',)}))
 
     def work(job):
         label, b, kw = job
@@ -224,7 +236,7 @@ def main(tier):
                        're-exported function exports; after Instantiate every memory byte of the window, every global, every table slot and the host calls '
                        'made by the start function are compared with the reference given the same embedder objects (imported memory pre-filled with 0xEE). '
                        'two-instances: ALL sequences of <= N operations from {get/set global, load, store, grow, call through table} x {A, B} + "Instantiate B" '
-                       'at every position on fresh instances; the reference keeps two separate instances. states = modules + sequences')
+                       'at every position on fresh instances (for modules without start/table/shared memory also "B = NewChild(A)"); the reference keeps two separate instances. states = modules + sequences')
     chk.sample({'config': jobs[40][1].desc, 'observers': [c.desc for c in jobs[40][1].cases][:8]})
     chk.sample({'two-instances sequence': ['A:global.set 9(0x109)', 'Instantiate B', 'B:global.get 9()']})
     chk.assumptions += ['the embedder answers are an enumerated map (same objects for both instances, as a resolver that returns fixed objects would)']
